@@ -368,24 +368,36 @@ func RunRebuild(s *Scen, r *vk.Rand, a, b int, bin, base string, cycles int) {
 	defer cl.Stop()
 	// two thirds of the cases keep foreground writes during rebuilds 4 KiB-aligned: sub-block writes to a
 	// rebuilding replica hit known finding F11 (DESIGN.md 6) and would end the case at its first promotion
-	alignedRebuild := s.Case%3 != 2 || os.Getenv("VERIF_DEV_ALIGNED") == "1"
+	alignedRebuild := s.Case%3 != 2 || s.Prop != "C07" || os.Getenv("VERIF_DEV_ALIGNED") == "1"
 	s.Cfg["rebuild_writes_4k_aligned"] = alignedRebuild
 	types.RPCReadTimeout, types.RPCWriteTimeout = 4*time.Second, 4*time.Second
 	rpc.SetRPCTimeout()
+	// the monitor runs from the very beginning: the add signals sent to all registered replicas after the
+	// volume start are where concurrent add requests occur
+	mon := startMonitor(cl)
+	defer mon.Stop()
 	for _, p := range cl.Reps {
 		if err := cl.StartRep(p); err != nil {
 			s.inconclusive("start replica: %v", err)
 			return
 		}
-		time.Sleep(time.Duration(r.Range(0, 300)) * time.Millisecond)
+		if !r.Chance(50) {
+			time.Sleep(time.Duration(r.Range(0, 300)) * time.Millisecond)
+		}
 	}
 	if !cl.WaitRW(rf, 120*time.Second) {
 		s.inconclusive("bring-up: %d of %d replicas RW after 120s: %v", cl.CountMode(types.RW), rf, cl.Modes())
 		return
 	}
 	cl.event("all %d replicas RW", rf)
-	mon := startMonitor(cl)
-	defer mon.Stop()
+	mon.mu.Lock()
+	if mon.bad != "" {
+		bad := mon.bad
+		mon.mu.Unlock()
+		s.Fail([]string{"C07", "C18"}, "more-than-one-WO", "during bring-up: "+bad)
+		return
+	}
+	mon.mu.Unlock()
 	snaps := map[string][]uint32{}
 	// pre-failure history
 	rr := vk.NewRand(r.U64())
